@@ -10,7 +10,8 @@ from genlm.grammar.wfsa.field_wfsa import WFSA as FieldWFSA
 from genlm.grammar.fst import FST
 
 STATE_STYLES = ("int", "str", "tuple", "mixed", "pair1", "pair0")
-WFSA_PRE = ("epsremove", "call", "total_weight", "trim", "reverse", "renumber", "E", "G", "forward", "backward")
+WFSA_PRE = ("epsremove", "call", "total_weight", "trim", "reverse", "renumber", "E", "G", "forward", "backward",
+            "kleene_plus", "star", "add_self", "mul_self")
 
 
 def st_name(style, k):
@@ -48,6 +49,12 @@ def warm_wfsa(m, pre):
             m(())
         elif name == "total_weight":
             m.total_weight()
+        elif name in ("kleene_plus", "star"):      # building a closure of the automaton must leave the automaton alone
+            getattr(m, name)()
+        elif name == "add_self":
+            m + m
+        elif name == "mul_self":
+            m * m
         else:
             getattr(m, name)
     return m
